@@ -145,6 +145,7 @@ def run(prog: Program, rep: Report, tier: str) -> None:
             continue
         I2 = Interp(prog)
         st2 = I2.new_state()
+        sci.require_attrs(["schedule_id"], "symbolic schedule")
         a = st2.alloc(HeapObj("obj", sci, {"schedule_id": ("sym", "id_a", "str")}, [], True, "a", False))
         if meth == "__hash__":
             outs2 = I2.run(mf, {mf.params[0]: a}, st2)
